@@ -53,7 +53,6 @@ LEVEL_TEXT["C19"] = ("seeded exploration of operation sequences (contiguous and 
                      "the backend calls; every answer must be one the backend alone could have given during the call")
 
 NOT_CLAIMED = {
- "C16": "check under construction (scenario S3: real NetworkTransport on simulated streams)",
 }
 
 PROFILES = {}
@@ -95,3 +94,15 @@ PROFILES["C15"] = {"level": "fault_enumeration", "level_text": LEVEL_TEXT["C15"]
                                  "are not modelled. " + LEVEL_NOTE,
                    "technique": "deterministic simulation of the file system with crash-point and crash-image enumeration",
                    "components": {"real_code": ["file_snapshot.go"], "stubs": ["package os (simfs: in-memory journalling file system)"], "replaced": ["clock (synctest)"]}}
+
+LEVEL_TEXT["C16"] = ("seeded exploration: two or three real NetworkTransports (MaxPool 0/1/3, MaxRPCsInFlight 1/2/3/8, time-outs 20 ms-2 s, both msgpack time formats, optional "
+                     "heartbeat fast path) over a deterministic in-memory stream layer whose every Read/Write is a scheduling point; 1-4 callers issue generated AppendEntries (nil / "
+                     "empty / large data, extensions, all log types, zero / UTC / monotonic / zoned timestamps, header variants v0-v3), RequestVote, RequestPreVote, TimeoutNow, "
+                     "InstallSnapshot (0 B-1 MB bodies) and pipelined AppendEntries; a recording consumer answers each request with a response carrying the request's nonce, sometimes "
+                     "an error, sometimes later than the caller's deadline; connections are refused, reset after a byte budget, stalled, transports closed during traffic")
+PROFILES["C16"] = {"level": "exploration", "level_text": LEVEL_TEXT["C16"],
+                   "scenarios": [{"scenario": "C16", "profile": "C16", "quick_runs": 6000, "quick_budget_s": 40, "thorough_runs": 2000000, "thorough_budget_s": 900}],
+                   "rule": "an evaluation is one generated traffic run; non-trivial when at least one stream fault fired (dial/accept error, reset, stall, slow consumer, close) and at least "
+                           "one request reached a handler; distinct = different hash of the per-kind call/outcome counters and step count",
+                   "components": {"real_code": ["net_transport.go", "commands.go", "util.go (msgpack helpers)"], "stubs": ["StreamLayer / net.Conn (SimStreamLayer)", "RPC consumer (recording handler)"],
+                                  "replaced": ["goroutine scheduling at every Read/Write/Dial (seeded chooser)", "clock (synctest)"]}}
